@@ -103,6 +103,10 @@ def check_normalize(case):
             got = normalize(np.array(fa), lo, hi)
         elif path == "normalize_y":
             got = Weaver(np.arange(len(fa), dtype=float), np.array(fa)).normalize_y(lo, hi).get()[1]
+        elif path == "scale_x(-1)+normalize_x":
+            # a non-zero scale may be negative: the abscissae then run downwards, and normalising is still the INCREASING
+            # affine map that sends the minimum to min_val and the maximum to max_val
+            got = Weaver(np.array([-v for v in fa]), np.arange(len(fa), dtype=float)).scale_x(-1.0).normalize_x(lo, hi).get()[0]
         else:
             got = Weaver(np.array(fa), np.arange(len(fa), dtype=float)).normalize_x(lo, hi).get()[0]
     except Exception as e:  # noqa
@@ -116,12 +120,37 @@ def check_normalize(case):
         fails.append(fail("normalize-affine-map", {"observed": g, "expected": exp}, key))
     if abs(g[fa.index(mn)] - lo) > 1e-12 * sc or abs(g[fa.index(mx)] - hi) > 1e-12 * sc:
         fails.append(fail("normalize-end-values", {"min->": g[fa.index(mn)], "max->": g[fa.index(mx)]}, key))
+    if case.get("skip_order"):
+        # long arrays: order preservation in O(n log n)
+        order = sorted(range(len(fa)), key=lambda i: fa[i])
+        for i, j in zip(order[:-1], order[1:]):
+            if fa[i] < fa[j] and not g[i] < g[j]:
+                fails.append(fail("normalize-order", {"i": i, "j": j}, key))
+                return fails, None
+        return fails, ("norm", path, lo, hi, _dig(g))
     for i in range(len(fa)):
         for j in range(len(fa)):
             if fa[i] < fa[j] and not g[i] < g[j]:
                 fails.append(fail("normalize-order", {"i": i, "j": j}, key))
                 return fails, None
     return fails, ("norm", path, lo, hi, _dig(g))
+
+
+@kind("pointwise-long")
+def check_pointwise_long(case):
+    """the same clauses on long series (sizes cross powers of two and every integer constant of the code)"""
+    from mc.harness import shrink
+    m, gk, what = case["len"], case["grid"], case["what"]
+    x, y = A.long_grid(m, gk), A.long_values(m, "ramp" if what[0] == "normalize" else "saw")
+    if what[0] == "trend":
+        res = check_trend({"x": x, "y": y, "f": what[1], "g": what[2], "normalized": what[3], "path": what[4]})
+    elif what[0] == "shiftscale":
+        res = check_shiftscale({"x": x, "y": y, "op": what[1], "v": what[2]})
+    else:
+        a = x if what[1] in ("normalize_x", "process-x") else [v * ((-1) ** (i % 3 == 0)) for i, v in enumerate(y)]
+        res = check_normalize({"a": a, "lo": what[2], "hi": what[3], "path": "process" if what[1].startswith("process") else what[1], "skip_order": True})
+    fails, sig = res
+    return shrink(fails, long=True), (None if sig is None else ("long", m, gk) + tuple(str(w) for w in what) + (sig[-1],))
 
 
 HIST_OPS = [("recreate", "linfix", 2), ("interpolate_n", 7, "linear"), ("truncate_by_index", 1, None), ("truncate_by_index", 0, -1),
@@ -199,15 +228,15 @@ def harnesses(tier, seed):
         x = [off + scl * v for v in g]
         for y in yvecs(len(x)):
             for v in ((0, 1, -2.5, 1e3) if op.startswith("shift") else (2, 0.5, -1, 3, 0.1)):
-                if op == "scale_x" and v < 0:
-                    continue
                 judge(ctx, check_shiftscale, {"x": x, "y": y, "op": op, "v": v}, bulk=True)
 
     def norm_body(ctx):
         k = ctx.choose([2, 3, 4, 5], "k")
-        path = ctx.choose(["process", "normalize_y", "normalize_x"], "path")
+        path = ctx.choose(["process", "normalize_y", "normalize_x", "scale_x(-1)+normalize_x"], "path")
         lo, hi = ctx.choose([(0.0, 1.0), (-2.0, 6.0), (5.0, 5.5), (0.0, 10.0)], "range")
-        if path == "normalize_x":
+        if path == "scale_x(-1)+normalize_x":
+            cands = [[-float(v) for v in g] for g in A.grids(7, k)] + [[-(v / 2 - 3) for v in g] for g in A.grids(6, k)]
+        elif path == "normalize_x":
             cands = [list(g) for g in A.grids(7, k)] + [[v / 2 - 3 for v in g] for g in A.grids(6, k)]
         else:
             cands = [list(v) for v in itertools.product(A.VPM, repeat=k) if len(set(v)) > 1]
@@ -223,4 +252,20 @@ def harnesses(tier, seed):
         judge(ctx, check_pointwise_in_state, {"init": ii, "ops": [list(o) for o in ops]}, calls=12,
               nontrivial=lambda sg: sg[0] != "skipped")
 
-    return [{"name": "pointwise-in-every-state", "body": hist_body}, {"name": "trend", "body": trend_body}, {"name": "shift-scale", "body": ss_body}, {"name": "normalize", "body": norm_body}]
+    long_sizes = A.sizes(40 if quick else 130, 3300 if quick else 140000, minimum=2)
+    whats = ([("trend", f, None, nm, p_) for f in ("t", "sin") for nm in (False, True) for p_ in ("process", "weaver")]
+             + [("trend", "t", "t2", True, "process")]
+             + [("shiftscale", op, v) for op, v in (("shift_x", 1.5), ("shift_y", -2.5), ("scale_x", 0.5), ("scale_x", -2.0), ("scale_y", 3.0))]
+             + [("normalize", pth, lo, hi) for pth in ("process-x", "process-y", "normalize_y", "normalize_x", "scale_x(-1)+normalize_x") for lo, hi in ((0.0, 1.0), (-2.0, 6.0))])
+
+    def long_body(ctx):
+        m = ctx.choose(long_sizes, "len")
+        gk = ctx.choose(["uniform", "gaps", "offset"], "grid")
+        for w in whats:
+            if w[0] == "normalize" and w[1] == "scale_x(-1)+normalize_x" and gk != "uniform":
+                continue
+            judge(ctx, check_pointwise_long, {"len": m, "grid": gk, "what": list(w)}, bulk=True)
+
+    return [{"name": "long-series", "body": long_body,
+             "bound_text": "every length 2..%d, 2^k+1 and around every integer constant of the code up to %d" % (40 if quick else 130, long_sizes[-1])},
+            {"name": "pointwise-in-every-state", "body": hist_body}, {"name": "trend", "body": trend_body}, {"name": "shift-scale", "body": ss_body}, {"name": "normalize", "body": norm_body}]
